@@ -7,6 +7,6 @@ mkdir -p build evidence replays
 (cd tools/extract && go build -o ../../build/extract .)
 ./build/extract -repo /repo -lean lean -json build/generated.json >/dev/null
 (cd tools/extract_wire && go build -o ../../build/extract_wire .)
-./build/extract_wire -repo /repo -ns Generated -out lean/RedkaModel/Generated/Grammar.lean
+./build/extract_wire -repo /repo -ns Generated -out lean/RedkaModel/Generated/Grammar.lean -cmds lean/RedkaModel/Generated/Cmds.lean
 (cd lean && lake build)
 python3 -c "import veriflib as V; e,o=V.build_harness(True); print('harness', e)"
